@@ -73,6 +73,19 @@ CLAIMS = {
              "state, so a wrong intermediate is caught at the step that produced it. Panics accepted only for a zero divisor.",
         technique="TLA+ trace validation with TLC of a stateful register-machine specification (impl->spec), both build profiles",
         design_ref="6/C18"),
+    "C08": dict(
+        text="from_str / from_str_binary / _octal / _hex and their saturating_, wrapping_, overflowing_ forms on 106 layouts: tokeniser "
+             "strings (all strings up to length 3/5 over a 10-symbol alphabet, 70 malformed/edge strings), decimal tie literals (exact "
+             "tie expansions, proper prefixes, +-1 in the last place, hair above/below), random long decimals, exact radix-2^k "
+             "expansions with half-digit tails, overflow-edge integer parts, 10 000-digit literals. TLC computes the exact rational of "
+             "the literal and its round-to-nearest-even image (ParseR) in BigInt arithmetic and applies the policies.",
+        technique="TLA+ trace validation with TLC (impl->spec), exact rational parsing semantics in TLA+", design_ref="6/C08"),
+    "C09": dict(
+        text="Display, Debug, Binary, Octal, LowerHex, UpperHex with automatic and explicit precision and 14 flag templates: TLC checks "
+             "that the unflagged body is the correctly rounded expansion at the digits shown (exact for radix 2^k without precision), "
+             "that the automatic decimal output parses back to the same bits (in the specification and through the real FromStr), and "
+             "that every flagged output is pad(sign ++ prefix ++ body) for the logged flags.",
+        technique="TLA+ trace validation with TLC (impl->spec)", design_ref="6/C09"),
 }
 
 REASON_TODO = "check not built yet in this round; the specification does not cover it so far"
